@@ -73,20 +73,18 @@ theorem sim_step {σ σ' : Sym} {c : CState} {n : Nat} (st : Step) (hR : Sim σ 
       refine ⟨_, rfl, ?_⟩
       cases hv : c.fs.vol tmpPath with
       | none =>
-        have hb : σ.tmpBound = false := by rw [hR.bound, hv]; rfl
         constructor
-        · simp [hb, step, State.touch, Role.path, hv]
-        · intro i hi; simp [step, State.touch, Role.path, hv] at hi
-        · simp [hb]; exact hR.pend
+        · simp [step, State.touch, hv]; exact hR.bound.trans (by rw [hv]; rfl)
+        · intro i hi; simp [step, State.touch, hv] at hi
+        · exact hR.pend
         · exact hR.pendF
       | some j =>
-        have hb : σ.tmpBound = true := by rw [hR.bound, hv]; rfl
         constructor
-        · simp [hb, step, State.touch, Role.path, hv]
+        · simp [step, State.touch, hv]; exact hR.bound.trans (by rw [hv]; rfl)
         · intro i hi _
-          simp [step, State.touch, Role.path, hv] at hi ⊢
+          simp [step, State.touch, hv] at hi ⊢
           subst hi; simp [upd]
-        · simp [hb]; exact hR.pend
+        · exact hR.pend
         · exact hR.pendF
   | fsync r =>
     cases r with
